@@ -14,7 +14,7 @@ use crate::plan::*;
 use crate::report::*;
 use crate::res::*;
 use crate::rng::{mix, Rng};
-use crate::sys::{make_pool, HSys, Pool};
+use crate::sys::{make_pool, HSys, HSysD, Pool};
 
 /// Boxing adapter: lets a run-time tree use the concrete `Par<..>` / `Seq<..>` types.
 pub struct Boxed(pub Box<dyn for<'a> RunWithPool<'a> + Send>);
@@ -117,7 +117,14 @@ impl TNode {
 /// Real nodes: `Par::new(c0).with(c1)` re-boxed, `.with(c2)` ...
 fn build(node: &TNode, ctx: &Arc<Ctx>) -> Boxed {
     match node {
-        TNode::Leaf(s) => Boxed(Box::new(HSys::new(s, ctx))),
+        // two leaf flavours: accessor type without / with a default (`try_new()`)
+        TNode::Leaf(s) => {
+            if s.uid % 2 == 0 {
+                Boxed(Box::new(HSys::new(s, ctx)))
+            } else {
+                Boxed(Box::new(HSysD::new(s, ctx)))
+            }
+        }
         TNode::Par(c) => {
             let mut acc = build(&c[0], ctx);
             if c.len() == 1 {
@@ -155,7 +162,8 @@ impl<'r> TG<'r> {
             self.uid += 1;
             let mut w = writable.clone();
             self.rng.shuffle(&mut w);
-            w.truncate(self.rng.range(0, 2).min(w.len()));
+            let wmax = if writable.len() > 40 { self.rng.range(0, 12) } else { self.rng.range(0, 2) };
+            w.truncate(wmax.min(w.len()));
             let mut rpool: Vec<Slot> = writable.iter().filter(|s| !w.contains(s)).cloned().chain(self.ro.iter().cloned()).collect();
             self.rng.shuffle(&mut rpool);
             rpool.truncate(self.rng.range(0, 3).min(rpool.len()));
@@ -177,9 +185,11 @@ impl<'r> TG<'r> {
 }
 
 fn gen_tree(rng: &mut Rng) -> TNode {
-    let mut all: Vec<Slot> = Slot::all().collect();
+    // every 8th tree ranges over all 128 resources (a par node may then mention > 64 distinct ones)
+    let wide = rng.chance(1, 8) && !crate::props::sched::tiny();
+    let mut all: Vec<Slot> = if wide { Slot::all_ext().collect() } else { Slot::all().collect() };
     rng.shuffle(&mut all);
-    let ro = all.split_off(26);
+    let ro = all.split_off(all.len() - 6);
     let tiny = crate::props::sched::tiny();
     let depth = if tiny { rng.range(1, 2) } else { rng.range(1, 5) };
     let fan = if tiny { 2 } else { rng.range(2, 6) };
